@@ -94,7 +94,7 @@ impl Sanitizer {
         let mut result = input.to_string();
 
         if self.lowercase {
-            result = result.to_lowercase();
+            result = result.to_ascii_lowercase();
         }
 
         result = self.replace_non_alphanumeric(&result);
@@ -148,7 +148,7 @@ impl Sanitizer {
         let mut last_was_sep = false;
 
         for ch in input.chars() {
-            if ch.is_alphanumeric() {
+            if ch.is_ascii_alphanumeric() {
                 result.push(ch);
                 last_was_sep = false;
             } else if !last_was_sep {
